@@ -69,11 +69,25 @@ def _work(job):
                 if m and len(fails) < 3:
                     fails.append({'kind': 'rot', 's': s, 'area': area, 'name': name, 'message': m,
                                   'sig': {'fn': name, 'square': shape[0] == shape[1]}})
+    from . import c05
+    for sub, s in mine:
+        if sub or (s[1] + s[2]) % 2:
+            continue
+        for area in areas_occl[::9]:
+            names = [nm for nm in O.DET_FUNCS if O.applicable(nm, area)]
+            k, m, name = c05.judge_mutate(s, area, names)
+            n += k
+            if m and len(fails) < 3:
+                fails.append({'kind': 'mutate', 's': s, 'area': area, 'names': names, 'message': m + ' (so the state object and its '
+                              'freshly built rotations are observed differently)', 'sig': {'fn': name, 'part': 'mutate'}})
     sample = {'kind': 'rot', 's': mine[-1][1], 'area': areas_occl[3], 'name': 'raytracing'} if mine else None
     return n, len(mine), cases, fails, sample
 
 
 def replay(case):
+    if case['kind'] == 'mutate':
+        from . import c05
+        return c05.judge_mutate(tup(case['s']), tup(case['area']), case['names'])[1]
     return judge(tup(case['s']), tup(case['area']), case['name'])[1]
 
 
